@@ -28,10 +28,12 @@ def plan(tier):
             for s in seqs:
                 if shape == () and all(o in ('index', 'setitem', 'flatten') for o in s):
                     continue
+                if q and kind == 'hyp.Polygon' and shape == (2,) and s == ('apply',):
+                    continue        # 10-15 min since repair 8192a51 (thorough only); setitem/apply and apply/setitem on the same shape stay in quick
                 napply = sum(1 for o in s if o == 'apply')
                 w = (8 if heavy else 1) * (1 + 3 * napply)
                 I.append(inst(f"coherent[{kind},shape={shape},{'/'.join(s)}]", 'harness.c11', 'coherent', dict(kind=kind, n=2, shape=shape, ops=list(s)),
-                              weight=w, timeout_s=900, opts=dict(max_vars=72)))
+                              weight=w, timeout_s=(360 if q else 900), opts=dict(max_vars=72)))
     for qu in QUERIES:
         I.append(inst(f"query[{qu},n=2]", 'harness.c11', 'queries', dict(n=2 if qu != 'origin_to' else 1, query=qu), weight=10, timeout_s=900))
     for qu in ('hyperboloid', 'klein', 'segment', 'geodesic'):
